@@ -82,65 +82,39 @@ func (t *TFile) trackWrite(offset int64, length int64) {
 	defer t.lock.Unlock()
 
 	txn := t.tracker.Txn()
-	insertStart := true
-	insertEnd := true
 
-	if t.tracker.Len() == 0 {
-
-		txn.Insert(getKey(start), startFlag)
-		txn.Insert(getKey(end), endFlag)
-		t.tracker = txn.Commit()
-
-		return
-	}
-
+	// Tracked ranges are kept disjoint and non-adjacent, as alternating start and end keys.
+	// Merge the new range with every tracked range it overlaps or touches.
+	var rangeStart []byte
 	fn := func(k []byte, v interface{}) bool {
-		isStart := v.(bool)
-		isEnd := !isStart
-		key := getOffset(k)
-
-		deleteKey := func() {
-			if key <= end {
-				txn.Delete(k)
-			}
-		}
-		switch {
-		case isStart && (key == start):
-			insertStart = false
-			return !terminate
-		case isStart && (key < start):
-			// Only interim keys need deleting
-			return !terminate
-		case isStart && (key > start):
-			deleteKey()
-			return !terminate
-		case isEnd && (key < start):
-			// Previous end hit and can be ignored, process next key
-			return !terminate
-		case isEnd && (key > start):
-			// There is an end that is after start and no other key in the range.
-			// Skip inserting start, previous start will cover the range.
-			insertStart = false
-			// This key might need deleting and process other keys
-			if key >= end {
-				insertEnd = false
-				return terminate
-			}
-			deleteKey()
-			return !terminate
-		default:
+		if v.(bool) == startFlag {
+			rangeStart = k
 			return !terminate
 		}
+		// k closes the range opened at rangeStart
+		s, e := getOffset(rangeStart), getOffset(k)
+		if s > end {
+			// keys are walked in increasing order: nothing further can be merged
+			return terminate
+		}
+		if e < start {
+			return !terminate
+		}
+		if s < start {
+			start = s
+		}
+		if e > end {
+			end = e
+		}
+		txn.Delete(rangeStart)
+		txn.Delete(k)
+		return !terminate
 	}
 
 	// TODO: To reduce the walk use prefix but needs to be walked twice offset and offset + length
 	t.tracker.Root().Walk(fn)
-	if insertStart {
-		txn.Insert(getKey(start), startFlag)
-	}
-	if insertEnd {
-		txn.Insert(getKey(end), endFlag)
-	}
+	txn.Insert(getKey(start), startFlag)
+	txn.Insert(getKey(end), endFlag)
 	t.tracker = txn.Commit()
 }
 
